@@ -1086,9 +1086,10 @@ static void all_strings(const std::string& alpha, size_t maxlen, std::vector<std
     }
 }
 
-// full = also the pointer-iterator, forward_list-range and rvalue-range variants and the *(begin()+k) form of the
-// self-referencing value argument (the other forms, d[k] for every k, d.front() and d.back(), are always enumerated)
-static std::vector<CCmd> enumerate_ops(uint64_t n, uint64_t limit, const std::string& alpha, bool full)
+// full = also the pointer-iterator, forward_list-range and rvalue-range variants.
+// selfforms = how the element of a *_self command is named: 0: d[k] for every k; 1: also d.front() and d.back();
+// 2: also *(d.begin()+k) for every k.  (Every element is referenced at every level; the level only adds spellings.)
+static std::vector<CCmd> enumerate_ops(uint64_t n, uint64_t limit, const std::string& alpha, bool full, int selfforms)
 {
     std::vector<CCmd> r;
     std::vector<std::string> strs;
@@ -1108,9 +1109,12 @@ static std::vector<CCmd> enumerate_ops(uint64_t n, uint64_t limit, const std::st
     if(n)
     {
         for(uint64_t k = 0; k < n; k++) refs.push_back({R_AT, k});
-        refs.push_back({R_FRONT, 0});
-        refs.push_back({R_BACK, 0});
-        if(full)
+        if(selfforms >= 1)
+        {
+            refs.push_back({R_FRONT, 0});
+            refs.push_back({R_BACK, 0});
+        }
+        if(selfforms >= 2)
             for(uint64_t k = 0; k < n; k++) refs.push_back({R_IT, k});
     }
     const auto add_self = [&](Op op, uint64_t a, uint64_t b) {
@@ -1226,7 +1230,7 @@ static ClosureStats run_closure(Ctx& cx, IMachine& m)
     std::map<std::string, Info> seen; // key: the whole arena (guards are constant)
     std::deque<std::string> queue;
     std::vector<std::vector<CCmd>> ops(SCOPE_CAP + 1);
-    for(size_t n = 0; n <= SCOPE_CAP; n++) ops[n] = enumerate_ops(n, SCOPE_CAP, SCOPE_ALPHA, true);
+    for(size_t n = 0; n <= SCOPE_CAP; n++) ops[n] = enumerate_ops(n, SCOPE_CAP, SCOPE_ALPHA, true, 2);
     m.reset(SCOPE_CAP, 0, "");
     std::string key, k2;
     m.save(key);
@@ -1340,7 +1344,8 @@ static void run_dfs(Ctx& cx, IMachine& m, int depth, long shard, long nshards)
 {
     Dfs d{cx, m, depth, {}, {}, {}, "", 0, true, "", {}, {}};
     d.ops.resize(SCOPE_CAP + 1);
-    for(size_t n = 0; n <= SCOPE_CAP; n++) d.ops[n] = enumerate_ops(n, SCOPE_CAP, SCOPE_ALPHA, false);
+    // depth >= 3 (thorough tier): the d[k] spelling only, the number of sequences grows with the cube of the command count
+    for(size_t n = 0; n <= SCOPE_CAP; n++) d.ops[n] = enumerate_ops(n, SCOPE_CAP, SCOPE_ALPHA, false, depth >= 3 ? 0 : 1);
     d.saved.resize(depth + 1);
     std::vector<std::string> roots;
     all_strings(SCOPE_ALPHA, SCOPE_CAP, roots);
